@@ -18,6 +18,8 @@ struct FrameModelListener : Listener {
     std::vector<SFrame> givenCol;    // caller's column vector before the call
     size_t indexed = 0, columns = 0, resubmits = 0, mutationsObserved = 0, appends = 0, declWithData = 0, selfSubmits = 0;
     std::set<size_t> submittedSlots; bool slotDirty[4] = {false, false, false, false};
+    bool requireAcceptance = false;  // C06: a frame that matches the declared state must be added (append / replace / extend), not refused
+    std::set<std::string> reasons; bool eitherWay = false; size_t matchingRefused = 0;
     FrameModelListener(CaseResult &rr, bool cci) : r(rr), checkCallerIndependence(cci) {}
 
     static std::vector<SFrame> stored(Interp &in) {
@@ -30,6 +32,7 @@ struct FrameModelListener : Listener {
         if (op.code == "fsub" || op.code == "fsubx") {
             size_t slot = static_cast<size_t>((op.arg(0) < 0 ? -op.arg(0) : op.arg(0)) % 4);
             given = takeFrame(in.slots[slot]);
+            reasons = frameRefusalReasons(shapeOf(in.o()), given, &eitherWay);
         }
         if (op.code == "selfsub" && !pre.empty()) given = pre[static_cast<size_t>(op.arg(0) < 0 ? -op.arg(0) : op.arg(0)) % pre.size()];
     }
@@ -38,7 +41,14 @@ struct FrameModelListener : Listener {
         if (o.skipped) return;
         std::vector<SFrame> post = stored(in);
         const std::string &k = op.code;
-        if (o.threw) return;   // refusals are C10's business
+        if (o.threw) {
+            // refusals are C10's business, except that "adding a frame grows / replaces / extends" presupposes that a frame which violates
+            // none of the documented preconditions (C07) and deviates in no undocumented way is added at all
+            if (requireAcceptance && (k == "fsub" || k == "fsubx") && reasons.empty() && !eitherWay) {
+                fail("a frame that matches the declared names, counts and rates was refused with " + o.cls + " (" + o.what + "): the data set was not changed as documented for " + o.note, i, op);
+            }
+            return;
+        }
         if (k == "selfsub") {
             std::vector<SFrame> want = pre;
             if (o.note.rfind("append", 0) == 0) { want.push_back(given); ++appends; }
